@@ -512,9 +512,8 @@ Proof.
         -- destruct H9 as [Hi0 Hap]. rewrite Hhp'.
            destruct (tpc (thr s hp)); cbn in Hap; try contradiction; try reflexivity.
            rewrite set_slot_other by lia. reflexivity.
-      * intros Hk'. destruct (t_root _ _ _ Ht Hk') as (R1 & R2 & R3 & R4 & R5 & R6). repeat split; assumption.
       * intros Hk' He'. destruct (t_host _ _ _ Ht Hk' He') as [(pp & pi & g' & grp' & d' & G1 & G2 & G3 & G4 & G5 & G6 & G7 & G8 & G9)].
-        constructor. exists pp, pi, g', grp', d'. rewrite Hgr. rewrite (Hoth pp) by lia.
+        constructor. exists pp, pi, g', grp', d'. rewrite Hgr, Hpar. rewrite (Hoth pp) by lia.
         cbn [slot_write thost trun tcaller tkey tsync]. repeat split; assumption.
       * intros g' Hg'. destruct (t_slots _ _ _ Ht g' Hg') as (grp' & A & B). exists grp'. rewrite set_slot_length. auto.
       * intros g' j nw Hg'. destruct (t_start _ _ _ Ht g' j nw Hg') as [A B]. rewrite set_slot_length. split; [|assumption].
@@ -546,10 +545,13 @@ Proof.
     pose proof (sum_to_upd2 (nthr s) (fun i => b2n (thold (thr s i))) id (b2n (thold (e_self e))) hp
                   (b2n (thold (slot_write (thr s hp) hi r h))) Hid Hhp ltac:(lia)) as Hsum. cbn beta in Hsum.
     assert (He0 : thold (e_self e) = false) by (rewrite Lb; unfold hexp; rewrite Hend; reflexivity).
-    rewrite He0 in Hsum. cbn [slot_write thold] in Hsum. unfold h in Hsum.
-    destruct (tsync (thr s id)) eqn:Esy.
-    + destruct H9 as [-> [nw Hpp]]. rewrite Hpp, H8 in Hhp'. rewrite Hhp', Hhid in Hsum. cbn in Hsum. lia.
-    + rewrite Hhid in Hsum. cbn in Hsum. lia.
+    assert (Hv : b2n (thold (e_self e)) + b2n (thold (slot_write (thr s hp) hi r h)) =
+                 b2n (thold (thr s id)) + b2n (thold (thr s hp))).
+    { rewrite He0. cbn [slot_write thold]. unfold h. destruct (tsync (thr s id)) eqn:Esy.
+      - destruct H9 as [-> [nw Hpp]]. rewrite Hpp, H8 in Hhp'. rewrite Hhp', Hhid. reflexivity.
+      - rewrite Hhid. reflexivity. }
+    set (v1 := b2n (thold (e_self e))) in *. set (v2 := b2n (thold (slot_write (thr s hp) hi r h))) in *.
+    clearbody v1 v2. lia.
   - intros a b [Ha1 Ha2] [Hb1 Hb2] Hab Hka Hh. rewrite Hn in *.
     assert (Hl' : forall x, x < nthr s -> ended (tpc (thr s' x)) = false -> live s x).
     { intros x Hx He. split; [assumption|]. destruct (Nat.eq_dec x id) as [->|Hxi]; [assumption|].
@@ -559,5 +561,189 @@ Proof.
     + rewrite <- !Hhost. assumption.
   - intros x ks Hin. rewrite Hn. apply (i_roots _ _ _ Hi x ks Hin).
 Qed.
+
+
+Lemma inv1_step_spawn s id e g j nw grp d : inv1 w par s -> id < nthr s -> step_local w s id = Some e ->
+  tpc (thr s id) = PStart g (S j) nw -> nth_error (groups w s id) g = Some grp -> nth_error grp j = Some d ->
+  e_slot e = None ->
+  e_spawn e = Some (child_of s id j d (Nat.eqb j 0) (if Nat.eqb j 0 then thold (thr s id) else false)) ->
+  e_self e = (if Nat.eqb j 0 then set_pc_hold (thr s id) (PCall g nw) false else set_pc (thr s id) (PStart g j true)) ->
+  e_sem e = PSame ->
+  inv1 w par (apply_eff s id e (permits s)).
+Proof.
+  intros Hi Hid Hl Hpc Hg Hd Hsl Hsp Hse Hsem.
+  set (s' := apply_eff s id e (permits s)).
+  set (c := child_of s id j d (Nat.eqb j 0) (if Nat.eqb j 0 then thold (thr s id) else false)) in *.
+  destruct (step_self_local s id e Hi Hid Hl) as (La & Lb & Lc & Ld & Le).
+  destruct (step_self_struct s id e Hi Hid Hl) as (Sa & Sb & Sc & Sd).
+  destruct (step_self_id s id e Hl) as (Ia & Ib & Ic & Id & Ie).
+  pose proof (step_local_live _ _ _ Hl) as Hlive.
+  pose proof (i_thr _ _ _ Hi id Hid) as Htid.
+  assert (Hthr : thr s' = upd (upd (thr s) id (e_self e)) (nthr s) c)
+    by (unfold s', apply_eff; cbn; rewrite Hsl, Hsp; reflexivity).
+  assert (Hn : nthr s' = S (nthr s)) by (unfold s', apply_eff; cbn; rewrite Hsp; reflexivity).
+  assert (Hself : thr s' id = e_self e) by (rewrite Hthr, upd_other by lia; apply upd_same).
+  assert (Hnew : thr s' (nthr s) = c) by (rewrite Hthr; apply upd_same).
+  assert (Hoth : forall x, x <> id -> x < nthr s -> thr s' x = thr s x)
+    by (intros x Hx Hx'; rewrite Hthr, !upd_other by lia; reflexivity).
+  assert (Hkey : forall x, x < nthr s -> tkey (thr s' x) = tkey (thr s x)).
+  { intros x Hx. destruct (Nat.eq_dec x id) as [->|Hxi]; [rewrite Hself; assumption|rewrite Hoth by assumption; reflexivity]. }
+  assert (Hgr : forall x, x < nthr s -> groups w s' x = groups w s x) by (intros x Hx; apply groups_eq; auto).
+  pose proof (t_hold _ _ _ Htid) as Hhid. unfold hexp in Hhid. rewrite Hpc in Hhid. cbn in Hhid.
+  destruct (t_start _ _ _ Htid _ _ _ Hpc) as [Hnone Hjlen].
+  assert (Hslots : tslots (e_self e) = tslots (thr s id)) by (rewrite Hse; destruct (Nat.eqb j 0); reflexivity).
+  constructor.
+  - intros x Hx. rewrite Hn in Hx.
+    destruct (Nat.eq_dec x (nthr s)) as [->|Hxn].
+    + (* the new thread *)
+      constructor; rewrite Hnew; unfold c, child_of; cbn; try discriminate; try congruence.
+      * unfold hexp. cbn. destruct (Nat.eqb j 0); [assumption|reflexivity].
+      * intros _ _. constructor. exists id, j, g, grp, d. rewrite Hnew. unfold c, child_of. cbn [thost trun tcaller tkey tsync].
+        rewrite Hself, Hgr, Ia, Ib, Hslots by assumption.
+        repeat split; try assumption; try reflexivity; try (apply Hnone; lia).
+        rewrite Hse. destruct (Nat.eqb j 0) eqn:Ej.
+        -- apply Nat.eqb_eq in Ej. split; [assumption|]. exists nw. reflexivity.
+        -- apply Nat.eqb_neq in Ej. cbn. repeat split; lia.
+      * intros m [F|F]; discriminate.
+    + assert (Hx' : x < nthr s) by lia. pose proof (i_thr _ _ _ Hi x Hx') as Ht.
+      destruct (Nat.eq_dec x id) as [->|Hxid].
+      * constructor; rewrite ?Hself, ?Hgr by assumption; try assumption.
+        -- rewrite Ib. intros Hk. destruct (t_root _ _ _ Ht Hk) as (R1 & R2 & _ & _ & _ & R6).
+           destruct (Sa Hk) as (Q1 & Q2 & Q3). rewrite Id, Ie. repeat split; assumption.
+        -- rewrite Ib. intros Hk Hend. destruct (t_host _ _ _ Ht Hk Hlive) as [(hp & hi & g' & grp' & d' & H1 & H2 & H3 & H4 & H5 & H6 & H7 & H8 & H9)].
+           constructor. exists hp, hi, g', grp', d'. rewrite Hself, Hgr, Hoth by lia.
+           rewrite Id, Ia, Ic, Ib, Ie. repeat split; assumption.
+      * constructor; rewrite ?Hoth, ?Hgr by assumption; try apply Ht.
+        intros Hk Hend. destruct (t_host _ _ _ Ht Hk Hend) as [(hp & hi & g' & grp' & d' & H1 & H2 & H3 & H4 & H5 & H6 & H7 & H8 & H9)].
+        constructor. exists hp, hi, g', grp', d'. rewrite Hgr by lia. rewrite (Hoth x) by assumption.
+        destruct (Nat.eq_dec hp id) as [->|Hhp].
+        -- rewrite Hself, Ia, Ib.
+           destruct (parent_step_child s id e g' hi (tsync (thr s x)) Hi Hid Hl H8 H9) as [P1 P2].
+           repeat split; assumption.
+        -- rewrite (Hoth hp) by lia. repeat split; assumption.
+  - intros r. unfold s', apply_eff; cbn. rewrite Le. apply (i_nocanc _ _ _ Hi).
+  - pose proof (i_perm _ _ _ Hi) as Hperm. change (permits s') with (permits s).
+    assert (Hh' : holders s' = holders s); [|lia].
+    unfold holders. rewrite Hn. cbn [sum_to]. rewrite Hnew.
+    rewrite (sum_to_ext (nthr s) (fun i => b2n (thold (thr s' i)))
+               (upd (fun i => b2n (thold (thr s i))) id (b2n (thold (e_self e))))).
+    2:{ intros x Hx. unfold upd. destruct (Nat.eqb x id) eqn:Ex.
+        - apply Nat.eqb_eq in Ex. subst. rewrite Hself. reflexivity.
+        - apply Nat.eqb_neq in Ex. rewrite Hoth by assumption. reflexivity. }
+    pose proof (sum_to_upd (nthr s) (fun i => b2n (thold (thr s i))) id (b2n (thold (e_self e))) Hid) as Hsum.
+    cbn beta in Hsum. rewrite Hse in *. unfold c, child_of. cbn [thold]. rewrite Hhid in *.
+    destruct (Nat.eqb j 0); cbn [thold set_pc_hold set_pc] in *; rewrite ?Hhid in *; cbn [b2n] in *; lia.
+  - intros a b [Ha1 Ha2] [Hb1 Hb2] Hab Hka Hh. rewrite Hn in *.
+    assert (Hold : forall x, x < nthr s -> ended (tpc (thr s' x)) = false -> live s x /\ thost (thr s' x) = thost (thr s x)).
+    { intros x Hx He. destruct (Nat.eq_dec x id) as [->|Hxi].
+      - split; [split; assumption|]. rewrite Hself. assumption.
+      - rewrite Hoth in * by assumption. split; [split; assumption|reflexivity]. }
+    (* no old live thread has the host of the new one *)
+    assert (Hfresh : forall x, live s x -> tkey (thr s x) <> None -> thost (thr s x) = Some (id, j) -> False).
+    { intros x [Hx1 Hx2] Hk Hh'. pose proof (i_thr _ _ _ Hi x Hx1) as Ht.
+      destruct (t_host _ _ _ Ht Hk Hx2) as [(hp & hi & g' & grp' & d' & H1 & H2 & H3 & H4 & H5 & H6 & H7 & H8 & H9)].
+      rewrite Hh' in H1. inversion H1; subst hp hi. rewrite Hpc in H9.
+      destruct (tsync (thr s x)); [destruct H9 as [_ [nw' F]]; discriminate|]. destruct H9 as [_ F]. cbn in F. lia. }
+    destruct (Nat.eq_dec a (nthr s)) as [->|Han]; destruct (Nat.eq_dec b (nthr s)) as [->|Hbn]; try congruence.
+    + destruct (Hold b ltac:(lia) Hb2) as [Lb' Hhb]. rewrite Hnew in Hh. unfold c, child_of in Hh. cbn [thost] in Hh.
+      apply (Hfresh b Lb'); [|congruence].
+      intros Hkb. destruct (t_root _ _ _ (i_thr _ _ _ Hi b (proj1 Lb')) Hkb) as (R1 & _). congruence.
+    + destruct (Hold a ltac:(lia) Ha2) as [La' Hha]. rewrite Hnew in Hh. unfold c, child_of in Hh. cbn [thost] in Hh.
+      apply (Hfresh a La'); [rewrite <- Hkey by lia; assumption|congruence].
+    + destruct (Hold a ltac:(lia) Ha2) as [La' Hha]. destruct (Hold b ltac:(lia) Hb2) as [Lb' Hhb].
+      apply (i_uniq _ _ _ Hi a b La' Lb' Hab); [rewrite <- Hkey by lia; assumption|congruence].
+  - intros x ks Hin. rewrite Hn. pose proof (i_roots _ _ _ Hi x ks Hin). lia.
+Qed.
+
+
+Lemma inv1_step s id s' : inv1 w par s -> step w s id = Some s' -> inv1 w par s'.
+Proof.
+  intros Hi H. destruct (step_spec _ _ _ _ H) as (Hid & e & p & Hl & -> & Hp).
+  destruct (step_kinds s id e Hl) as [[A B]|[(r & hp & hi & A1 & A2 & A3 & A4 & A5 & A6 & _)|(g & j & nw & grp & d & A1 & A2 & A3 & A4 & A5 & A6 & A7 & _)]].
+  - apply inv1_step_plain; assumption.
+  - rewrite A6 in Hp. subst p. eapply inv1_step_return; eassumption.
+  - rewrite A7 in Hp. subst p. eapply inv1_step_spawn; eassumption.
+Qed.
+
+Lemma quiescent_ended s : quiescent s = true -> forall x, x < nthr s -> ended (tpc (thr s x)) = true.
+Proof.
+  unfold quiescent. rewrite forallb_forall. intros H x Hx. apply H. apply in_seq. lia.
+Qed.
+
+Lemma groups_start_run s ks x : x < nthr s -> groups w (start_run s ks) x = groups w s x.
+Proof.
+  intros Hx. unfold groups, start_run. cbn. rewrite upd_other by lia.
+  destruct (tkey (thr s x)); [reflexivity|]. cbn. assert (Nat.eqb (nthr s) x = false) as -> by (apply Nat.eqb_neq; lia).
+  reflexivity.
+Qed.
+
+Lemma inv1_start_run s ks : inv1 w par s -> inv1 w par (start_run s ks).
+Proof.
+  intros Hi. set (s' := start_run s ks).
+  assert (Hnew : thr s' (nthr s) = root_thread (S (nrun s))) by (unfold s', start_run; cbn; apply upd_same).
+  assert (Hoth : forall x, x < nthr s -> thr s' x = thr s x) by (intros x Hx; unfold s', start_run; cbn; apply upd_other; lia).
+  assert (Hgr : forall x, x < nthr s -> groups w s' x = groups w s x) by (intros; apply groups_start_run; assumption).
+  constructor.
+  - intros x Hx. change (nthr s') with (S (nthr s)) in Hx.
+    destruct (Nat.eq_dec x (nthr s)) as [->|Hxn].
+    + constructor; rewrite Hnew; cbn; try discriminate; try congruence.
+      * intros _. repeat split; try discriminate; try reflexivity. exists ks. left. reflexivity.
+      * intros m [F|F]; discriminate.
+    + assert (Hx' : x < nthr s) by lia. pose proof (i_thr _ _ _ Hi x Hx') as Ht.
+      constructor; rewrite ?Hoth, ?Hgr by assumption; try apply Ht.
+      * intros Hk. destruct (t_root _ _ _ Ht Hk) as (R1 & R2 & R3 & R4 & R5 & (ks' & R6)).
+        repeat split; try assumption. exists ks'. right. assumption.
+      * intros Hk He. destruct (t_host _ _ _ Ht Hk He) as [(hp & hi & g & grp & d & H1 & H2 & H3 & H4 & H5 & H6 & H7 & H8 & H9)].
+        constructor. exists hp, hi, g, grp, d. rewrite (Hoth x), (Hoth hp), Hgr by lia.
+        repeat split; assumption.
+  - apply (i_nocanc _ _ _ Hi).
+  - pose proof (i_perm _ _ _ Hi) as Hperm. change (permits s') with (permits s).
+    assert (holders s' = holders s); [|lia]. unfold holders. change (nthr s') with (S (nthr s)). cbn [sum_to].
+    rewrite Hnew. cbn [root_thread thold b2n]. rewrite Nat.add_0_r. apply sum_to_ext. intros x Hx. rewrite Hoth by assumption. reflexivity.
+  - intros a b [Ha1 Ha2] [Hb1 Hb2] Hab Hka Hh. change (nthr s') with (S (nthr s)) in *.
+    destruct (Nat.eq_dec a (nthr s)) as [->|Han]; [rewrite Hnew in Hka; cbn in Hka; congruence|].
+    rewrite (Hoth a) in * by lia.
+    destruct (Nat.eq_dec b (nthr s)) as [->|Hbn].
+    + rewrite Hnew in Hh. cbn in Hh.
+      destruct (t_host _ _ _ (i_thr _ _ _ Hi a ltac:(lia)) Hka Ha2) as [(hp & hi & g & grp & d & H1 & _)]. congruence.
+    + rewrite (Hoth b) in * by lia. apply (i_uniq _ _ _ Hi a b); try split; try assumption; lia.
+  - intros x ks' [Hin|Hin]; change (nthr s') with (S (nthr s)); [inversion Hin; lia|].
+    pose proof (i_roots _ _ _ Hi x ks' Hin). lia.
+Qed.
+
+(* Evict / Edit only run in quiescent states and leave threads, roots, semaphore alone *)
+Lemma inv1_quiet s s' : inv1 w par s -> quiescent s = true ->
+  thr s' = thr s -> nthr s' = nthr s -> roots s' = roots s -> rcanc s' = rcanc s -> permits s' = permits s ->
+  inv1 w par s'.
+Proof.
+  intros Hi Hq Ht Hn Hr Hc Hp. pose proof (quiescent_ended s Hq) as He.
+  constructor.
+  - intros x Hx. rewrite Hn in Hx. pose proof (i_thr _ _ _ Hi x Hx) as Hx'. specialize (He x Hx).
+    constructor; rewrite ?Ht, ?Hr; try apply Hx'.
+    + intros _ Hf. congruence.
+    + intros g Hg. destruct (tpc (thr s x)); cbn in *; discriminate.
+  - rewrite Hc. apply (i_nocanc _ _ _ Hi).
+  - rewrite Hp. unfold holders. rewrite Hn, Ht. apply (i_perm _ _ _ Hi).
+  - intros a b [Ha1 Ha2] _ _ _ _. rewrite Hn in Ha1. rewrite Ht in Ha2. specialize (He a Ha1). congruence.
+  - intros x ks. rewrite Hr, Hn. apply (i_roots _ _ _ Hi).
+Qed.
+
+Lemma inv1_event s e s' : inv1 w par s -> do_event w s e = Some s' -> inv1 w par s'.
+Proof.
+  intros Hi H. destruct e as [t|ks|ks|ks vs]; cbn [do_event] in H.
+  - eapply inv1_step; eassumption.
+  - destruct (forallb (fun k => Nat.ltb k (wn w)) ks); inversion H. apply inv1_start_run. assumption.
+  - destruct (quiescent s) eqn:Hq; inversion H. eapply inv1_quiet; try eassumption; reflexivity.
+  - destruct (quiescent s) eqn:Hq; inversion H. eapply inv1_quiet; try eassumption; reflexivity.
+Qed.
+
+Lemma inv1_init inputs : inv1 w par (init par inputs).
+Proof.
+  constructor; cbn; try (intros; lia); try reflexivity; try (intros; contradiction).
+  all: try (intros a b [Ha _]; cbn in Ha; lia).
+Qed.
+
+Lemma reach_inv1 inputs s : reach w par inputs s -> inv1 w par s.
+Proof. induction 1; [apply inv1_init|eapply inv1_event; eassumption]. Qed.
 
 End Inv1Proofs.
